@@ -24,6 +24,7 @@ PROPS = {
                         "pixels = Render(Place(codewords)) is established by C07/C08, not re-derived here"],
     },
     "C02": {
+        "mc": ["MC_Codec"],
         "level_text": 'The produced stream is judged by an independent reader written in TLA+ from the standard (Stream.tla), stepped codeword by codeword by TLC, plus catalogue checks (size in list, data/ecc counts) from Symbols.tla.',
         "level_note": 'Trusts: Stream.tla/Symbols.tla transcriptions (cross-validated by MC_Codec, golden vectors, C04/C12 runs).',
         "jobs": [enc_job("C02")],
@@ -40,6 +41,7 @@ PROPS = {
         "assumptions": ["a hang is observed as a 20 s watchdog expiry"],
     },
     "C13": {
+        "mc": ["MC_Codec"],
         "level_text": 'The reader action Latch(m) carries the guard m in Enabled and ASCII data is only admitted in the end-of-data tail when ASCII is disabled; checked on every produced stream.',
         "level_note": "Trusts: the tail rule is the widest reading of the standard's fallbacks (<=4 chars, <=4 codewords, after the last latch).",
         "jobs": [enc_job("C13")],
@@ -131,6 +133,7 @@ PROPS["C04"] = {
     "level_note": "Trusts: Writer.tla generates only conformant streams (cross-checked against the independent reader Stream.tla by MC_Codec). The verdict is an equality computed by the harness; the expected value comes from the specification.",
     "technique": "TLA+ Writer specification; TLC-generated behaviours (exhaustive + simulation) replayed into the implementation's decoder",
     "mc": ["MC_Codec"],
+    "mc_thorough": ["MC_Codec_thorough"],
     "jobs": [{"family": "genw", "spec": "GenW", "custom": custom.c04_job}],
     "rule": "one case = one complete behaviour of Writer.tla (input, capacity, prefix, sequence of encoding actions) = one data codeword stream; distinct = distinct printed (expect, stream) lines; all are non-trivial",
     "assumptions": ["idle latch/unlatch pairs bounded by MaxIdle = 1 in the generator (unbounded in MC_Codec's tiny configuration)"],
@@ -197,6 +200,7 @@ PROPS["C17"] = {
 
 MC = {
     "MC_Codec": {"spec": "MC_Codec", "must_take": ["Write", "StartRead", "Read"], "timeout": 1800},
+    "MC_Codec_thorough": {"spec": "MC_Codec", "cfg": "MC_Codec_thorough.cfg", "must_take": ["Write", "StartRead", "Read"], "timeout": 3400},
     "MC_Planner": {"spec": "MC_Planner", "must_take": ["PIterate"], "timeout": 600},
     "MC_Placement": {"spec": "MC_Placement", "must_take": ["Statement"], "timeout": 900},
 }
